@@ -123,6 +123,10 @@ func (c *container) addKv(key, value string) ([]string, bool) {
 	defer c.lock.Unlock()
 
 	c.dirty.Set(true)
+	// the key might be updated with a new value, drop the stale association first
+	if old, ok := c.mapping[key]; ok && old != value {
+		c.doRemoveKey(key)
+	}
 	keys := c.values[value]
 	previous := append([]string(nil), keys...)
 	early := len(keys) > 0
